@@ -802,6 +802,10 @@ func runGuardAgreesWithMessage(rr *RuleRun) {
 					msg = firstStringLit(info, st)
 				}
 			}
+			if m := moreThanRE.FindStringSubmatch(msg); m != nil {
+				checkMoreThanCap(rr, c, info, pkg, fd, is, msg, m[1])
+				return true
+			}
 			if msg == "" || !strictBeliefRE.MatchString(msg) {
 				return true
 			}
@@ -1468,6 +1472,25 @@ func runDynamicWrapperWritesType(rr *RuleRun) {
 			}
 			return true
 		})
+		// a write that is made only 'if err == nil' (the steps before it succeeded) is as good as an unconditional
+		// one for the successful returns: the node that must dominate them is then the error test itself
+		for i, w := range writes {
+			var anchor ast.Node = w
+			for p := c.Parent(w); p != nil && p != ast.Node(fd.Body); p = c.Parent(p) {
+				is, ok := p.(*ast.IfStmt)
+				if !ok {
+					continue
+				}
+				be, ok := ast.Unparen(is.Cond).(*ast.BinaryExpr)
+				if ok && be.Op == token.EQL && isNilIdent(info, be.Y) && info.TypeOf(be.X) != nil && isErrorType(info.TypeOf(be.X)) && w.Pos() >= is.Body.Pos() && w.End() <= is.Body.End() {
+					anchor = is.Cond
+				} else {
+					anchor = w
+					break
+				}
+			}
+			writes[i] = anchor
+		}
 		for _, ret := range g.Returns() {
 			if len(ret.Results) == 0 {
 				continue
@@ -1489,5 +1512,70 @@ func runDynamicWrapperWritesType(rr *RuleRun) {
 				rr.Violation(k, ret.Pos(), fmt.Sprintf("this successful return is not preceded on every path by a call that writes the serialised type (%s): some values are emitted without their type, so the decoder, which expects the wrapper, loses the type (an unknown value comes back as cty.DynamicVal without its type constraint and refinements) or fails on the encoder's own output", tvar.Name()))
 			}
 		}
+	}
+}
+
+
+var moreThanRE = regexp.MustCompile(`(?i)\bmore than ([0-9]+)\b`)
+
+// checkMoreThanCap: 'if len(X) >= N { fail "more than N …" }' inside a loop that appends to X is right only when the
+// test comes before the append of the same iteration (N elements are there, one more is about to be added); placed
+// after the append it rejects exactly N elements, which the message allows.
+func checkMoreThanCap(rr *RuleRun, c *Ctx, info *types.Info, pkg string, fd *ast.FuncDecl, is *ast.IfStmt, msg, num string) {
+	be, ok := ast.Unparen(is.Cond).(*ast.BinaryExpr)
+	if !ok || (be.Op != token.GEQ && be.Op != token.GTR) {
+		return
+	}
+	lc, ok := ast.Unparen(be.X).(*ast.CallExpr)
+	if !ok || !isBuiltin(info, lc, "len") || len(lc.Args) != 1 {
+		return
+	}
+	n, ok := constInt(info, be.Y)
+	if !ok || fmt.Sprint(n) != num {
+		return
+	}
+	x := objOf(info, lc.Args[0])
+	if x == nil {
+		return
+	}
+	// the enclosing loop body
+	var loopBody *ast.BlockStmt
+	for p := c.Parent(is); p != nil; p = c.Parent(p) {
+		switch l := p.(type) {
+		case *ast.ForStmt:
+			loopBody = l.Body
+		case *ast.RangeStmt:
+			loopBody = l.Body
+		}
+		if loopBody != nil {
+			break
+		}
+	}
+	if loopBody == nil {
+		return
+	}
+	key := fmt.Sprintf("%s.%s/cap %q", pkg, declName(fd), trunc(msg, 40))
+	appendBefore, appendAfter := false, false
+	inspectNoLit(loopBody, func(m ast.Node) bool {
+		as, ok := m.(*ast.AssignStmt)
+		if !ok || len(as.Lhs) != 1 || len(as.Rhs) != 1 || objOf(info, as.Lhs[0]) != x {
+			return true
+		}
+		if call, ok := ast.Unparen(as.Rhs[0]).(*ast.CallExpr); ok && isBuiltin(info, call, "append") {
+			if as.Pos() < is.Pos() {
+				appendBefore = true
+			} else {
+				appendAfter = true
+			}
+		}
+		return true
+	})
+	switch {
+	case be.Op == token.GEQ && appendBefore:
+		rr.Violation(key, is.Pos(), fmt.Sprintf("the cap 'len(%s) >= %s' is tested after the element of this iteration was appended, and fails with %q: a result of exactly %s elements is rejected although the message allows it (the test belongs before the append, where %s elements are there and one more is about to be added)", x.Name(), num, trunc(msg, 50), num, num))
+	case be.Op == token.GTR && appendAfter && !appendBefore:
+		rr.Violation(key, is.Pos(), fmt.Sprintf("the cap 'len(%s) > %s' is tested before the append of this iteration: %s+1 elements are accepted although the message draws the line at %s", x.Name(), num, num, num))
+	default:
+		rr.OK(key, is.Pos(), "the cap is tested on the side of the append that its message implies")
 	}
 }
